@@ -124,8 +124,8 @@ Section Tok.
         end
     end.
 
-  (* Decoder::decode, one call.  The inner loop's fuel is explicit; `decode_fuel_ok`
-     (TokenizerProofs) shows it is never exhausted. *)
+  (* Decoder::decode, one call.  The inner loop's fuel is explicit; `drain_spec`
+     (TokenizerRun.v) shows it is never exhausted. *)
   Definition decode (s : st) (input : list N) : outcome (st * option tok * list N) :=
     let* (s1, o) := drain (S (length (sres s))) s in
     match o with
